@@ -11,6 +11,7 @@ import (
 
 func main() {
 	r := vlib.Start("C18", "exploration")
+	r.ScaleQuick(2) // quick tier: 2x the case counts written at the sections (still well under a minute)
 	r.Rule("inputs are indexed meshes built by the monitor (height-field patches, fans, strips, spherical caps, subdivided spheres, tori, voxel slabs of genus 0-3, voxel blobs, flat and needle tetrahedra, bipyramids, edge-flipped and jittered variants, several components, face subsets of those) and certified by vlib.AnalyzeTris plus an own boundary walk before use; a case is non-trivial if the library produced at least one chart/parameterisation that the oracle decided; distinct by generator description + API + option string")
 	r.Assume("vertices are identified by bit-identical coordinates (== on floats), as the library does")
 	r.Assume("library results may depend on Go map order: only invariants of the outputs are checked")
